@@ -60,6 +60,14 @@ async def co(x):
     return x
 
 
+def shapes(t):
+    return t
+
+
+def registry(handlers):
+    return handlers
+
+
 def emit(flag):
     yield "A" if flag else 1
 
@@ -148,6 +156,11 @@ def run(ctx):
                         list(t.produce(1, "A")); list(t.produce(1, 1)); see("produce", "item", "A"); see("produce", "item", 1); see("produce", "n", 1)
                         see("produce", "yield", "A"); see("produce", "yield", 1)
                         list(t.emit(True)); list(t.emit(False)); see("emit", "flag", True); see("emit", "yield", "A"); see("emit", "yield", 1)
+                        # one position seeing six tuple shapes, each homogeneous but of two element types (large-union rewriting); collections of different class objects
+                        for tp in ((1,), (1, 2), (1, 2, 3), ("a",), ("a", "b"), ("a", "b", "c")):
+                            t.shapes(tp); see("shapes", "t", tp); see("shapes", "return", tp)
+                        for hs in ([t.Dog, t.Cat], [t.Dog, int], {t.Cat, t.Animal}):
+                            t.registry(hs); see("registry", "handlers", hs); see("registry", "return", hs)
                     for v in calls:
                         w = rnd.choice(grammar)
                         t.ident(v, w); see("ident", "a", v); see("ident", "b", w); see("ident", "return", v)
